@@ -24,7 +24,12 @@ theorem rinv_rotate {σ σ' : State} {i : Nat} {r : Reader} (hb : Basic σ) (hr 
         cases this
         rcases a with a | a
         · exact Or.inl a
-        · exact Or.inr (Or.inr a) }
+        · exact Or.inr (Or.inr a)
+    fOld := fun mf f hm hf => by
+      have := hr.fOld mf f hm hf
+      have := hb.memLt
+      show f < σ.nextId
+      omega }
 
 /-- the tables change while the reader has a version pinned: irrelevant -/
 theorem rinv_tabs_pinned {σ : State} {i : Nat} {r : Reader} {v : List Entry}
@@ -170,6 +175,14 @@ theorem rinv_rSeq {σ : State} {i : Nat} {r : Reader} {s : Nat} {lv : Bool}
   · intro s' mf _ hm'; rw [hm] at hm'; cases hm'
   · intro s' mf _ hm'; rw [hm] at hm'; cases hm'
   · intro kv hkv; rw [hres] at hkv; cases hkv
+  · intro mf f hm'; rw [hm] at hm'; cases hm'
+  · intro mf hm'; rw [hm] at hm'; cases hm'
+  · intro s' v _ hv
+    have : r.ver? = none := by
+      cases h : r.ver? with
+      | none => rfl
+      | some v' => exact absurd hm (hr.verMems (by rw [h]; simp))
+    rw [this] at hv; cases hv
 
 theorem rinv_rMems {σ : State} {i : Nat} {r : Reader} (hb : Basic σ) (hc : Cover c σ)
     (hr : RInv c σ i r) (hseq : r.seq? ≠ none) (hver : r.ver? = none) :
@@ -221,9 +234,17 @@ theorem rinv_rMems {σ : State} {i : Nat} {r : Reader} (hb : Basic σ) (hc : Cov
       apply view_eq_of_leF
       simp only [bufPart, bufPartL, leF_append]
       rw [leF_above (E := privOut σ.tr) (fun e he => hpriv e (privOut_sub _ e he))]
-      simp }
+      simp
+    fOld := fun mf f hm hf => by
+      have : some (σ.mem, σ.frozen) = some mf := hm
+      cases this
+      exact hb.frozenLt f hf
+    rorder := fun mf hm a ha b hb' => by
+      have : some (σ.mem, σ.frozen) = some mf := hm
+      cases this
+      exact hc.order a ha b (List.mem_append_right _ hb') }
 
-theorem rinv_rVer {σ : State} {i : Nat} {r : Reader}
+theorem rinv_rVer {σ : State} {i : Nat} {r : Reader} (hb : Basic σ)
     (hr : RInv c σ i r) (hmems : r.mems? ≠ none) (hver : r.ver? = none) :
     RInv c (setReader σ i { r with ver? := some σ.tabs }) i { r with ver? := some σ.tabs } :=
   { hr with
@@ -232,7 +253,15 @@ theorem rinv_rVer {σ : State} {i : Nat} {r : Reader}
     rc := fun s mf hs hm k => by
       have := hr.rc s mf hs hm k
       rw [hver] at this
-      exact this }
+      exact this
+    verHist := fun s v hs hv e he hle => by
+      have : some σ.tabs = some v := hv
+      cases this
+      rcases hb.tabSub e he with h | h
+      · exact h
+      · have := hb.privSeq e (privIn_sub _ e h)
+        have := hr.seqLe s hs
+        omega }
 
 theorem rinv_rLookup {σ : State} {i : Nat} {r : Reader} {s : Nat} {mf : Nat × Option Nat}
     {v : List Entry} {k : Bytes}
@@ -284,13 +313,19 @@ theorem readers_step {σ σ' : State} {a : Action} (hb : Basic σ) (hc : Cover c
     obtain ⟨g1, g2, rfl⟩ := doWriteInsert_some h
     obtain ⟨hc1, _⟩ := consec_spec _ _ g2
     have hnew : ∀ e ∈ es, σ.pub < e.seq := fun e he => by have := (hc1 e he).1; omega
-    refine rinv_grow (σ := σ) ?_ ?_ ?_ ?_ ?_ ?_ ?_ (hR j r hj)
+    have hnewer : ∀ e ∈ es, ∀ x ∈ σ.hist, x.seq < e.seq := by
+      intro e he x hx
+      have h1 := hb.bound x (List.mem_append_left _ hx)
+      rw [g1] at h1
+      simp only [privOf, List.length_nil] at h1
+      have := (hc1 e he).1; omega
+    refine rinv_grow (σ := σ) hb ?_ ?_ ?_ ?_ ?_ ?_ ?_ (hR j r hj)
     · exact ⟨es, rfl, hnew⟩
     · intro id
       rw [getBuf_wi σ _ es id rfl]
       by_cases hid : id = σ.mem
-      · exact ⟨es, by simp [hid], hnew⟩
-      · exact ⟨[], by simp [hid], by simp⟩
+      · exact ⟨es, by simp [hid], fun e he => ⟨hnew e he, hnewer e he⟩, fun h => absurd hid h⟩
+      · exact ⟨[], by simp [hid], by simp, fun _ => rfl⟩
     · rfl
     · exact Or.inl rfl
     · intro _; rfl
@@ -299,7 +334,7 @@ theorem readers_step {σ σ' : State} {a : Action} (hb : Basic σ) (hc : Cover c
   | publish =>
     intro j r hj
     obtain ⟨g1, rfl⟩ := doPublish_some h
-    exact rinv_frame (σ := σ) rfl rfl rfl (Or.inl rfl) rfl (Nat.le_add_right _ _) (fun _ h => h) (hR j r hj)
+    exact rinv_frame (σ := σ) hb rfl rfl rfl (Or.inl rfl) rfl (Nat.le_add_right _ _) (fun _ h => h) (hR j r hj)
   | rotate =>
     intro j r hj
     have hcopy := h
@@ -313,11 +348,11 @@ theorem readers_step {σ σ' : State} {a : Action} (hb : Basic σ) (hc : Cover c
   | flushDrop =>
     intro j r hj
     obtain ⟨g1, g2, rfl⟩ := doFlushDrop_some h
-    exact rinv_frame (σ := σ) rfl rfl rfl (Or.inr rfl) rfl (Nat.le_refl _) (fun _ h => h) (hR j r hj)
+    exact rinv_frame (σ := σ) hb rfl rfl rfl (Or.inr rfl) rfl (Nat.le_refl _) (fun _ h => h) (hR j r hj)
   | compStart =>
     intro j r hj
     obtain ⟨g1, rfl⟩ := doCompStart_some h
-    exact rinv_frame (σ := σ) rfl rfl rfl (Or.inl rfl) rfl (Nat.le_refl _) (fun _ h => h) (hR j r hj)
+    exact rinv_frame (σ := σ) hb rfl rfl rfl (Or.inl rfl) rfl (Nat.le_refl _) (fun _ h => h) (hR j r hj)
   | compCommit nt =>
     intro j r hj
     have hcopy := h
@@ -327,13 +362,13 @@ theorem readers_step {σ σ' : State} {a : Action} (hb : Basic σ) (hc : Cover c
     intro j r hj
     have := doSnapAcquire_some h
     subst this
-    exact rinv_frame (σ := σ) rfl rfl rfl (Or.inl rfl) rfl (Nat.le_refl _)
+    exact rinv_frame (σ := σ) hb rfl rfl rfl (Or.inl rfl) rfl (Nat.le_refl _)
       (fun _ h => List.mem_append_left _ h) (hR j r hj)
   | snapRelease id =>
     intro j r hj
     have := doSnapRelease_some h
     subst this
-    exact rinv_frame (σ := σ) rfl rfl rfl (Or.inl rfl) rfl (Nat.le_refl _)
+    exact rinv_frame (σ := σ) hb rfl rfl rfl (Or.inl rfl) rfl (Nat.le_refl _)
       (fun _ h => List.mem_filter.2 ⟨h, by simp⟩) (hR j r hj)
   | rNew =>
     intro j r hj
@@ -342,7 +377,7 @@ theorem readers_step {σ σ' : State} {a : Action} (hb : Basic σ) (hc : Cover c
     have hj' : (σ.readers ++ [({} : Reader)])[j]? = some r := hj
     by_cases hlt : j < σ.readers.length
     · rw [List.getElem?_append_left hlt] at hj'
-      exact rinv_frame (σ := σ) rfl rfl rfl (Or.inl rfl) rfl (Nat.le_refl _) (fun _ h => h) (hR j r hj')
+      exact rinv_frame (σ := σ) hb rfl rfl rfl (Or.inl rfl) rfl (Nat.le_refl _) (fun _ h => h) (hR j r hj')
     · rw [List.getElem?_append_right (by omega)] at hj'
       have : r = {} := by
         cases hk : j - σ.readers.length with
@@ -355,14 +390,14 @@ theorem readers_step {σ σ' : State} {a : Action} (hb : Basic σ) (hc : Cover c
     obtain ⟨r0, g1, g2, rfl⟩ := doRSeq_some h
     rcases getElem?_set_cases hj with ⟨rfl, rfl⟩ | ⟨hne, hj'⟩
     · exact rinv_rSeq (hR _ r0 g1) g2 (Nat.le_refl _)
-    · exact rinv_frame (σ := σ) rfl rfl rfl (Or.inl rfl) rfl (Nat.le_refl _)
+    · exact rinv_frame (σ := σ) hb rfl rfl rfl (Or.inl rfl) rfl (Nat.le_refl _)
         (fun _ h => List.mem_append_left _ h) (hR j r hj')
   | rSeqSnap i id =>
     intro j r hj
     obtain ⟨r0, s, g1, g2, g3, rfl⟩ := doRSeqSnap_some h
     rcases getElem?_set_cases hj with ⟨rfl, rfl⟩ | ⟨hne, hj'⟩
     · exact rinv_rSeq (hR _ r0 g1) g3 (hb.snapsLe (Owner.user id, s) (mem_of_lookup _ _ _ g2))
-    · exact rinv_frame (σ := σ) rfl rfl rfl (Or.inl rfl) rfl (Nat.le_refl _)
+    · exact rinv_frame (σ := σ) hb rfl rfl rfl (Or.inl rfl) rfl (Nat.le_refl _)
         (fun _ h => List.mem_append_left _ h) (hR j r hj')
   | rMems i =>
     intro j r hj
@@ -373,7 +408,7 @@ theorem readers_step {σ σ' : State} {a : Action} (hb : Basic σ) (hc : Cover c
       · cases g4
     rcases getElem?_set_cases hj with ⟨rfl, rfl⟩ | ⟨hne, hj'⟩
     · exact rinv_rMems hb hc (hR _ r0 g1) g2 g4
-    · exact rinv_frame (σ := σ) rfl rfl rfl (Or.inl rfl) rfl (Nat.le_refl _) (fun _ h => h) (hR j r hj')
+    · exact rinv_frame (σ := σ) hb rfl rfl rfl (Or.inl rfl) rfl (Nat.le_refl _) (fun _ h => h) (hR j r hj')
   | rVer i =>
     intro j r hj
     obtain ⟨r0, g1, g2, g3, g4, rfl⟩ := doRVer_some h
@@ -382,20 +417,20 @@ theorem readers_step {σ σ' : State} {a : Action} (hb : Basic σ) (hc : Cover c
       · exact g4
       · cases g4
     rcases getElem?_set_cases hj with ⟨rfl, rfl⟩ | ⟨hne, hj'⟩
-    · exact rinv_rVer (hR _ r0 g1) g4 g3
-    · exact rinv_frame (σ := σ) rfl rfl rfl (Or.inl rfl) rfl (Nat.le_refl _) (fun _ h => h) (hR j r hj')
+    · exact rinv_rVer hb (hR _ r0 g1) g4 g3
+    · exact rinv_frame (σ := σ) hb rfl rfl rfl (Or.inl rfl) rfl (Nat.le_refl _) (fun _ h => h) (hR j r hj')
   | rLookup i k =>
     intro j r hj
     obtain ⟨r0, s, mf, v, g1, g2, g3, g4, rfl⟩ := doRLookup_some h
     rcases getElem?_set_cases hj with ⟨rfl, rfl⟩ | ⟨hne, hj'⟩
     · exact rinv_rLookup (hR _ r0 g1) g2 g3 g4
-    · exact rinv_frame (σ := σ) rfl rfl rfl (Or.inl rfl) rfl (Nat.le_refl _) (fun _ h => h) (hR j r hj')
+    · exact rinv_frame (σ := σ) hb rfl rfl rfl (Or.inl rfl) rfl (Nat.le_refl _) (fun _ h => h) (hR j r hj')
   | rRelease i =>
     intro j r hj
     obtain ⟨r0, g1, g2, g3, g4, rfl⟩ := doRRelease_some h
     rcases getElem?_set_cases hj with ⟨rfl, rfl⟩ | ⟨hne, hj'⟩
     · exact rinv_rRelease (hR _ r0 g1) g4
-    · refine rinv_frame (σ := σ) rfl rfl rfl (Or.inl rfl) rfl (Nat.le_refl _) ?_ (hR j r hj')
+    · refine rinv_frame (σ := σ) hb rfl rfl rfl (Or.inl rfl) rfl (Nat.le_refl _) ?_ (hR j r hj')
       intro s hs
       refine List.mem_filter.2 ⟨hs, ?_⟩
       simp only [ne_eq, Owner.reader.injEq, decide_not, Bool.not_eq_eq_eq_not, Bool.not_true,
@@ -404,15 +439,15 @@ theorem readers_step {σ σ' : State} {a : Action} (hb : Basic σ) (hc : Cover c
   | trOpen =>
     intro j r hj
     obtain ⟨g1, g2, g3, g4, rfl⟩ := doTrOpen_some h
-    exact rinv_frame (σ := σ) rfl rfl rfl (Or.inl rfl) rfl (Nat.le_refl _) (fun _ h => h) (hR j r hj)
+    exact rinv_frame (σ := σ) hb rfl rfl rfl (Or.inl rfl) rfl (Nat.le_refl _) (fun _ h => h) (hR j r hj)
   | trPut e =>
     intro j r hj
     obtain ⟨t, g1, g2, g3, rfl⟩ := doTrPut_some h
-    exact rinv_frame (σ := σ) rfl rfl rfl (Or.inl rfl) rfl (Nat.le_refl _) (fun _ h => h) (hR j r hj)
+    exact rinv_frame (σ := σ) hb rfl rfl rfl (Or.inl rfl) rfl (Nat.le_refl _) (fun _ h => h) (hR j r hj)
   | trGet k =>
     intro j r hj
     obtain ⟨t, g1, g2, rfl⟩ := doTrGet_some h
-    exact rinv_frame (σ := σ) rfl rfl rfl (Or.inl rfl) rfl (Nat.le_refl _) (fun _ h => h) (hR j r hj)
+    exact rinv_frame (σ := σ) hb rfl rfl rfl (Or.inl rfl) rfl (Nat.le_refl _) (fun _ h => h) (hR j r hj)
   | trInstall =>
     intro j r hj
     have hcopy := h
@@ -422,9 +457,9 @@ theorem readers_step {σ σ' : State} {a : Action} (hb : Basic σ) (hc : Cover c
     intro j r hj
     obtain ⟨t, g1, g2, rfl⟩ := doTrPublish_some h
     obtain ⟨x1, x2, x3, x4⟩ := hb.trExcl t g1
-    refine rinv_grow (σ := σ) ?_ ?_ ?_ ?_ ?_ ?_ ?_ (hR j r hj)
+    refine rinv_grow (σ := σ) hb ?_ ?_ ?_ ?_ ?_ ?_ ?_ (hR j r hj)
     · exact ⟨t.priv, rfl, fun e he => hb.privSeq e (by rw [g1]; exact he)⟩
-    · intro id; exact ⟨[], by simp [getBuf], by simp⟩
+    · intro id; exact ⟨[], by simp [getBuf], by simp, fun _ => rfl⟩
     · rfl
     · exact Or.inl rfl
     · intro _; rfl
@@ -433,7 +468,7 @@ theorem readers_step {σ σ' : State} {a : Action} (hb : Basic σ) (hc : Cover c
   | trDiscard =>
     intro j r hj
     obtain ⟨t, g1, g2, rfl⟩ := doTrDiscard_some h
-    exact rinv_frame (σ := σ) rfl rfl rfl (Or.inl rfl) rfl (Nat.le_refl _) (fun _ h => h) (hR j r hj)
+    exact rinv_frame (σ := σ) hb rfl rfl rfl (Or.inl rfl) rfl (Nat.le_refl _) (fun _ h => h) (hR j r hj)
 
 /-- all invariants together -/
 structure Inv (c : UCmp) (σ : State) : Prop where
